@@ -125,12 +125,11 @@ def check_lattice(ctx, spec):
         ctx.fail(f"sites-count:{tag}", spec, f"len(sites)={len(sites)} n_sites={n} prod(sides)={int(np.prod(sides))}")
     nums = [int(lat.get_site_num(s)) for s in sites]
     if nums != list(range(n)):
-        ctx.fail(f"site-num:{tag}", spec, f"get_site_num(sites[i]) != i: {nums[:12]}")
+        ctx.fail(f"site-num:{tag}", spec, f"get_site_num(sites[i]) != i (so sites[get_site_num(s)] != s): {nums[:12]}")
     if len(set(sites)) != n:
         ctx.fail(f"site-num:{tag}", spec, "site list has duplicates")
-    for s in sites:
-        if tuple(sites[int(lat.get_site_num(s))]) != tuple(s):
-            ctx.fail(f"site-num:{tag}", spec, f"sites[get_site_num({s})] != {s}")
+    if nums != list(range(n)):
+        return
     # --- 3. neighbour relation ----------------------------------------------------------
     is_open = bool(spec.get("kw", {}).get("open_x"))
     rows_even = spec["kind"] != "tri" or sides[0] % 2 == 0
